@@ -324,7 +324,11 @@ async fn storm(ctx: Ctx, idx: u64) -> Report {
         let ih = gen::rand_id(&mut rng);
         let fam = node_v6;
         let tok = tokens.get(&(fam, 0)).cloned().unwrap_or_default();
-        for port in 1..=520u16 {
+        // either 520 distinct pairs (the store fills up, 202 from then on) or the same few pairs
+        // announced over and over (renewals must not use up capacity: always acknowledged)
+        let renew_only = rng.gen_bool(0.4);
+        for n in 1..=520u16 {
+            let port = if renew_only { 1 + n % 3 } else { n };
             let src = bed.client(fam, 0);
             let q = Krpc::query(
                 gen::tid(&mut rng),
@@ -359,7 +363,7 @@ async fn storm(ctx: Ctx, idx: u64) -> Report {
                 report.count(&format!("outcome_{o}"));
             }
         }
-        report.count("store_fill_scenarios");
+        report.count(if renew_only { "store_renewal_scenarios" } else { "store_fill_scenarios" });
     }
 
     // The storm: everything is injected first (random times), matched afterwards.
@@ -473,6 +477,8 @@ async fn storm(ctx: Ctx, idx: u64) -> Report {
     }
     let injected_srcs: HashSet<SocketAddr> = injected.iter().map(|i| i.src).collect();
 
+    // announces acknowledged during the storm (an upper bound of the pairs they added)
+    let mut storm_acks = 0usize;
     for inj in &injected {
         let delivered = copies.get(&inj.wire_id).copied().unwrap_or(0);
         let got = answers.get(&inj.src).map(|v| v.as_slice()).unwrap_or(&[]);
@@ -517,7 +523,10 @@ async fn storm(ctx: Ctx, idx: u64) -> Report {
                     report.count("duplicated_queries");
                 }
                 for w in got {
-                    let outcome = check_reply(&mut report, &bed.id, node_v6, q, &inj.src, &w.data, accepted_pairs.len().max(if fill { 500 } else { 0 }), &info);
+                    let outcome = check_reply(&mut report, &bed.id, node_v6, q, &inj.src, &w.data, accepted_pairs.len() + storm_acks, &info);
+                    if outcome == Some("ack") {
+                        storm_acks += 1;
+                    }
                     if let Some(o) = outcome {
                         report.count(&format!("outcome_{o}"));
                     }
@@ -758,6 +767,7 @@ pub fn check(tier: Tier) -> Check {
             ("outcome_ack", tier.pick(500, 20_000)),
             ("outcome_e203", tier.pick(500, 20_000)),
             ("outcome_e202", tier.pick(50, 1_000)),
+            ("store_renewal_scenarios", tier.pick(5, 100)),
             ("duplicated_queries", tier.pick(300, 10_000)),
             ("queries_reusing_a_pending_tid", tier.pick(40, 400)),
         ],
